@@ -27,6 +27,13 @@ def leafJs (c : Leaf) (name : Name) (fm : Bool) : Name :=
   | .exitRepeat => .s (S "break")
   | _ => if fm ∧ name == Name.s (S "me") then .s (S "this") else name     -- Node.generate_js
 
+/-- `js_receiver(code)`: a numeric literal or a prefix operation is parenthesised before `.name` / `[index]` is appended
+    (`str.isdigit` is modelled for ASCII digits; the configured codec produces no other digit characters) -/
+def jsReceiver (t : Str) : Str :=
+  match t with
+  | c :: _ => if c = '-' ∨ c = '!' ∨ isAsciiDigit c then S "(" ++ t ++ S ")" else t
+  | [] => t
+
 /-- Node.generate_js of the classes that do not override it and have a fixed name -/
 def baseJs (name : Str) : Name := .s name
 
@@ -91,7 +98,7 @@ mutual
         if startsWith o (S "sprite(") then
           -- vsprintf(op, l, r) with the two %s of the table entry
           (pyFormat o [lt.str, rt.str]).map Name.s
-        else if startsWith o (S ".") then pure (.s (lt.str ++ o ++ S "(" ++ rt.str ++ S ")"))
+        else if startsWith o (S ".") then pure (.s (jsReceiver lt.str ++ o ++ S "(" ++ rt.str ++ S ")"))
         else pure (.s (S "(" ++ lt.str ++ S " " ++ o ++ S " " ++ rt.str ++ S ")"))
     | .spAssign _ l r mode, ind => do
       let lt ← js fm l ind
@@ -105,23 +112,23 @@ mutual
       if stop.isNone then do
         let c ← js fm of_ 0
         let a ← js fm start 0
-        pure (.s (c.str ++ S "." ++ kind ++ S "[" ++ a.str ++ S "]"))
+        pure (.s (jsReceiver c.str ++ S "." ++ kind ++ S "[" ++ a.str ++ S "]"))
       else do
         let c ← js fm of_ 0
         let a ← js fm start 0
         let b ← js fm stop 0
-        pure (.s (c.str ++ S "." ++ kind ++ S "[range(" ++ a.str ++ S ", " ++ b.str ++ S ")]"))
+        pure (.s (jsReceiver c.str ++ S "." ++ kind ++ S "[range(" ++ a.str ++ S ", " ++ b.str ++ S ")]"))
     | .unaryStr op _ type of_, ind => do
       let o ← dictGet OpNames.jsUnaOp op
       let t ← js fm of_ ind
       match type with
       | some ty =>
-        if op = S "last" then pure (.s (t.str ++ S "." ++ ty ++ S "[\"" ++ o ++ S "\"]"))
-        else pure (.s (t.str ++ S "." ++ ty ++ S "." ++ o))
+        if op = S "last" then pure (.s (jsReceiver t.str ++ S "." ++ ty ++ S "[\"" ++ o ++ S "\"]"))
+        else pure (.s (jsReceiver t.str ++ S "." ++ ty ++ S "." ++ o))
       | none => pure (.s ((if of_.isMenusVar then S "_menuBar.menu" else t.str) ++ S "." ++ o))
     | .propAcc _ obj prop, ind => do
       let t ← js fm obj ind
-      if t == Name.s (S "tell_obj") then pure (.s prop) else pure (.s (t.str ++ S "." ++ prop))
+      if t == Name.s (S "tell_obj") then pure (.s prop) else pure (.s (jsReceiver t.str ++ S "." ++ prop))
     | .keyAcc _ prop, _ =>
       if prop = S "date" ∨ prop = S "time" then .ok (.s (S "_system.date('" ++ prop ++ S "')"))
       else match dictGet PropTables.knownPropertiesOperation prop with
@@ -269,8 +276,8 @@ end
 
 /-! ### codegen/js.py -/
 
-/-- `x in ('birth')`: substring test on the string 'birth' -/
-def inBirth (s : Str) : Bool := contains (S "birth") s
+/-- `x in ('birth',)` -/
+def inBirth (s : Str) : Bool := s == S "birth"
 
 /-- parameter list of a wrapper; `skipMe` drops the parameters called 'me' (class and factory scripts) -/
 def jsParams (f : FuncDef) (skipMe : Bool) : R Str := do
